@@ -13,7 +13,7 @@ def gen_exchange_case(rng, big=False):
     S = int(rng.choice([1, 2, 3, 5, 8, 13, 30] + ([64] if big else [])))
     K = int(rng.integers(0, 6 if big else 5))
     c = float(rng.uniform(300, 360))
-    dt = float(rng.choice([1e-4, 5e-4, 1e-3, 2e-3, 5e-3]))
+    dt = float(rng.choice([1e-4, 5e-4, 1e-3, 2e-3, 5e-3, 3e-3, 7e-4, 0.3, 0.4, 0.15, 0.07]))      # reciprocal integer or not
     # visible pairs: subset of the strict upper triangle, in row-major order (as bake builds it)
     pairs = [(i, j) for i in range(P) for j in range(i + 1, P) if rng.random() < 0.7]
     # delays straddling the histogram end
@@ -122,7 +122,7 @@ def gen_collect_case(rng):
     B = int(rng.choice([1, 2, 3]))
     S = int(rng.choice([1, 2, 3, 5, 8, 13, 30]))
     c = float(rng.uniform(300, 360))
-    dt = float(rng.choice([1e-4, 1e-3, 5e-3]))
+    dt = float(rng.choice([1e-4, 1e-3, 5e-3, 3e-3, 0.3, 0.4, 0.15]))      # reciprocal integer or not
     pool = [0, 1, 2, max(S - 1, 0), S, S + 2, 2 * S + 1]
     bins = rng.choice(pool, size=P)
     dist = np.array([max(b - float(rng.uniform(0.05, 0.95)), 0.0) * c * dt for b in bins])
